@@ -17,6 +17,9 @@ PASS_THROUGH = (
     "<core::option::Option>::unwrap_or", "<core::option::Option>::take", "core::mem::replace", "core::mem::take",
     "<core::option::Option>::ok_or", "<core::option::Option>::ok_or_else", "<core::result::Result>::map_err",
     "<core::result::Result>::ok", "<core::option::Option>::filter",
+    "<core::cell::RefCell>::borrow", "<core::cell::RefCell>::borrow_mut", "<core::cell::once::OnceCell>::get",
+    "<[T]>::iter", "<alloc::vec::Vec>::iter", "core::iter::traits::collect::IntoIterator>::into_iter",
+    "core::iter::traits::iterator::Iterator>::next", "::values", "::iter", "<core::cell::Cell>::get",
 )
 
 
@@ -100,6 +103,7 @@ class Prov:
             else:
                 self.pdefs.setdefault(pk(p), []).append(("call", bb, None, t))
         self._sub = False
+        self.variant_fields = False
 
     # ------------------------------------------------------------------------------------------
 
@@ -136,7 +140,10 @@ class Prov:
                     # only treat as a *stored field* when the base is behind a reference/argument,
                     # i.e. not a locally built aggregate
                     if self._is_external_base(l, projs[:i]):
-                        return {("field", base["d"], p["n"])}
+                        nm = p["n"]
+                        if self.variant_fields and i > 0 and projs[i - 1] != "*" and projs[i - 1]["k"] == "d":
+                            nm = "%s.%s" % (projs[i - 1]["v"], p["n"])
+                        return {("field", base["d"], nm)}
         if not projs:
             return self._origins_local(l, through_arith, seen)
         # projections of a local aggregate / call result
